@@ -382,7 +382,9 @@ class _KafkaBrokerClient(ClientFactory):
     def _sendQueued(self):
         """Connection just came up, send the unsent requests."""
         for tReq in list(self.requests.values()):  # must copy, may del
-            if tReq.sent is None:
+            # A callback fired by an earlier send (no-reply requests complete
+            # right here) may have cancelled this request or closed the client
+            if tReq.sent is None and self.requests.get(tReq.correlationId) is tReq:
                 self._sendRequest(tReq)
 
     def _cancelRequest(self, correlationId, deferred):
